@@ -128,3 +128,4 @@ def run(ctx):
     # the priority queue under the algorithm (growth of the specification): PrioDict.tla / PrioDictTrace.tla
     from drivers import prio_common
     prio_common.run(ctx, quick)
+    prio_common.run_topo(ctx, quick)
